@@ -97,6 +97,17 @@ def run(ck, tier):
         return {"engine": "assertions", "lines": sub_universe(rows, idxs), "detail": det}
     run_engine(ck, binary, "assertions", "replay", rows, mk)
 
+    # (1b) conditional edge family first = stride: judged only if the real constructor accepts the arguments
+    r = vf.tlc("MCAssertions.tla", "GenAssertionEdge.cfg", cwd=SPECDIR, workers=2, timeout=600)
+    if not r.ok:
+        raise vf.ToolError("Assertions edge family violated its own invariant (specification bug): %s" % r.error)
+    ck.add_tlc("gen-edge", r)
+    edge = r.tagged("REPLAY")
+    edge.sort(key=lambda x: x["i"])
+    ck.require(len(edge) >= 20 and [x["i"] for x in edge] == list(range(len(edge))), "edge family incomplete: %d" % len(edge))
+    run_engine(ck, binary, "assertions", "edge", edge,
+               lambda d: {"engine": "assertions", "lines": [dict(edge[d["i"]], i=0, ov=[2])], "detail": d["detail"]})
+
     # (2) prepare_assertions through BoundaryConstraints::new
     r = vf.tlc("MCAssertions.tla", "GenAssertionSets.cfg", cwd=SPECDIR, workers=4, timeout=1200)
     ck.add_tlc("gen-sets", r)
